@@ -40,7 +40,8 @@ func classOf(err error) string {
 type invocation struct {
 	id   int
 	addr string
-	ai   int // index of addr, -1 if it is not an address of the scenario
+	ai   int      // index of addr, -1 if it is not an address of the scenario
+	via  int      // index into dialerTable of the dial function that was invoked
 	ch   chan int // scripted outcome: outOK, outErr, outClosed
 	// guarded by harness.mu
 	returned  bool
@@ -71,10 +72,11 @@ type attempt struct {
 	id        int
 	ai        int
 	inv       *invocation // nil: unknown dialer, no dial function involved
+	dialer    int         // index into dialerTable of the name given by the request that started it
 	state     int
 	conn      *grpc.ClientConn
 	members   []*requester
-	forgotten bool // succeeded, every member released, closed
+	forgotten bool               // succeeded, every member released, closed
 	lastState connectivity.State // state of conn at the previous quiescent point
 }
 
@@ -82,6 +84,8 @@ type attempt struct {
 type requester struct {
 	id, thread, ai int
 	ownCtx, pre    bool
+	dialer         int             // index into dialerTable of the name it passed
+	ctx            context.Context // set if the context carries a deadline
 	cancel         context.CancelFunc
 	cancelledAt    int // step, -1 if its context is not cancelled
 	att            *attempt
@@ -111,6 +115,9 @@ type park struct {
 type stats struct {
 	labels     map[string]bool
 	nontrivial bool
+	// a request naming another dialer met a pending dial / held connection and
+	// was answered (with the connection or an error)
+	dialerClass bool
 	// sizes reached at some quiescent point of the generated steps
 	maxPending, maxHolders, maxBlocked int
 }
@@ -130,6 +137,8 @@ type harness struct {
 	m       *connection.Manager
 	addrIdx map[string]int
 	names   []string // spelling of address i
+	// registered[k]: the Manager of this case was built with dialerTable[k]
+	registered []bool
 	// guarded by mu
 	invs   []*invocation
 	parks  []*park // arrival order
@@ -154,6 +163,10 @@ type harness struct {
 	overlap    bool
 	failedDial bool
 	epi        bool // the generated steps are over; the epilogue runs
+
+	// dialer dimension: a request met an attempt started under another name / was
+	// answered with an error there / was handed the connection there
+	otherMet, otherRefused, otherShared bool
 }
 
 // label records an interesting event of the generated steps; what happens in
@@ -184,16 +197,19 @@ func describePanic(p any) string {
 }
 
 // dial is the scripted connection.Dial: it parks until told (fin step) or until
-// its context is cancelled.
-func (h *harness) dial(ctx context.Context, target string, opts ...grpc.DialOption) (*grpc.ClientConn, error) {
+// its context is cancelled. via names the entry of dialerTable it is registered
+// under; an entry with a mode of its own returns that outcome at once, always.
+func (h *harness) dial(via int, ctx context.Context, target string, opts ...grpc.DialOption) (*grpc.ClientConn, error) {
 	h.mu.Lock()
 	ai, ok := h.addrIdx[target]
 	if !ok {
 		ai = -1
 	}
-	inv := &invocation{id: len(h.invs), addr: target, ai: ai, ch: make(chan int, 1)}
+	inv := &invocation{id: len(h.invs), addr: target, ai: ai, via: via, ch: make(chan int, 1)}
 	h.invs = append(h.invs, inv)
-	if h.auto != 0 {
+	if m := dialerTable[via].mode; m != 0 {
+		inv.ch <- m
+	} else if h.auto != 0 {
 		inv.ch <- h.auto
 	}
 	h.mu.Unlock()
@@ -295,6 +311,9 @@ func (h *harness) resultOf(r *requester) string {
 func (h *harness) attName(t *attempt) string {
 	if t.inv == nil {
 		return fmt.Sprintf("attempt %d (unknown dialer, %s)", t.id, addrName(t.ai))
+	}
+	if t.dialer != 0 {
+		return fmt.Sprintf("dial #%d to %s (dialer %q)", t.inv.id, addrName(t.ai), dialerTable[t.dialer].name)
 	}
 	return fmt.Sprintf("dial #%d to %s", t.inv.id, addrName(t.ai))
 }
@@ -467,6 +486,24 @@ func (h *harness) doAcq(s int, st Step) (string, *verr) {
 		r.ownCtx = true
 		ctx, r.cancel = context.WithCancel(ctx)
 	}
+	if dl := deadlineOf(st.Dl); dl != 0 {
+		// a deadline in virtual time (below the context that cancel steps cancel)
+		r.ownCtx = true
+		var cf context.CancelFunc
+		ctx, cf = context.WithTimeout(ctx, dl)
+		if outer := r.cancel; outer != nil {
+			r.cancel = func() { cf(); outer() }
+		} else {
+			r.cancel = cf
+		}
+		r.ctx = ctx
+		if dl < 0 {
+			r.cancelledAt, r.pre = s, true
+			h.label("ctx:deadline-already-expired")
+		} else {
+			h.label("ctx:deadline-in-virtual-time")
+		}
+	}
 	if st.P {
 		r.cancel()
 		r.cancelledAt, r.pre = s, true
@@ -476,10 +513,25 @@ func (h *harness) doAcq(s int, st Step) (string, *verr) {
 	// everybody: cur if it succeeded and, only after a replacement (which is
 	// accepted for a connection that the scenario closed, see below), older ones
 	live := h.liveGens(ai)
-	dialer := connection.DEFAULT
-	bad := st.B && cur == nil && len(live) == 0
-	if bad {
-		dialer = "no-such-dialer"
+	// the dialer name: any entry of dialerTable, whatever is registered for the
+	// address (the legacy flag B names the unregistered one, and only for an
+	// address with nothing registered)
+	r.dialer = mod(st.Dn, len(dialerTable))
+	if st.B && r.dialer == 0 && cur == nil && len(live) == 0 {
+		r.dialer = dialerUnknown
+	}
+	dialer := dialerTable[r.dialer].name
+	unknown := !h.registered[r.dialer]
+	// an unregistered name for an address with nothing registered: the request
+	// is an attempt of its own that fails without any dial function
+	bad := unknown && cur == nil && len(live) == 0
+	if r.dialer != 0 {
+		h.label("dialer:" + dialerTable[r.dialer].label)
+		if unknown && dialerTable[r.dialer].reg {
+			h.label("dialer:name-left-out-of-this-manager")
+		}
+	} else if unknown {
+		h.label("dialer:default-name-left-out-of-this-manager")
 	}
 	h.reqs = append(h.reqs, r)
 	desc := fmt.Sprintf("r%d (thread %d) calls Connection(%s)", r.id, th, addrName(ai))
@@ -489,8 +541,14 @@ func (h *harness) doAcq(s int, st Step) (string, *verr) {
 	case st.C:
 		desc += " with a context of its own"
 	}
-	if bad {
-		desc += " and an unknown dialer name"
+	switch {
+	case unknown:
+		desc += fmt.Sprintf(" and the unregistered dialer name %q", dialer)
+	case r.dialer != 0:
+		desc += fmt.Sprintf(" and the dialer name %q", dialer)
+	}
+	if st.Dl != 0 {
+		desc += ", deadline " + deadlineName(st.Dl)
 	}
 	if st.G {
 		desc += ", gate " + pointWait + " armed"
@@ -575,14 +633,24 @@ func (h *harness) doAcq(s int, st Step) (string, *verr) {
 			return desc, newVerr("second-dial-in-flight", "step %d: the request of r%d invoked the dial function (dial #%d) while %s is still in flight", s, r.id, newInvs[0].id, h.attName(cur))
 		}
 		for _, t := range live {
+			if t.dialer != r.dialer && !h.isXclosed(t.conn) {
+				// a connection of its own through the dialer it named, next to the
+				// one that went through another dialer: not stated either way
+				h.label("dialer:other-name-got-a-dial-of-its-own-while-connection-is-held")
+				continue
+			}
 			if !h.isXclosed(t.conn) {
 				return desc, newVerr("redial-while-live", "step %d: the request of r%d invoked the dial function (dial #%d) although %s is registered for %s and has holders that did not release it", s, r.id, newInvs[0].id, h.connName(t.conn), addrName(ai))
 			}
 		}
-		if bad {
-			return desc, newVerr("unexpected-dial", "step %d: the request of r%d names an unknown dialer but the dial function was invoked", s, r.id)
+		if unknown {
+			return desc, newVerr("unexpected-dial", "step %d: the request of r%d names the dialer %q, which is not registered, but a dial function was invoked", s, r.id, dialer)
 		}
 		t := h.newAttempt(ai, newInvs[0])
+		t.dialer = r.dialer
+		if prev := h.lastGen(ai, t); prev != nil && prev.dialer != r.dialer && len(live) == 0 {
+			h.label("dialer:fresh-dial-through-another-dialer-than-the-previous-generation")
+		}
 		t.members = []*requester{r}
 		r.att = t
 		h.cur[ai] = t
@@ -601,6 +669,7 @@ func (h *harness) doAcq(s int, st Step) (string, *verr) {
 		h.label("acquire-with-cancelled-ctx-refused")
 	case bad:
 		t := h.newAttempt(ai, nil)
+		t.dialer = r.dialer
 		t.members = []*requester{r}
 		r.att = t
 		h.cur[ai] = t
@@ -640,6 +709,21 @@ func (h *harness) doAcq(s int, st Step) (string, *verr) {
 		join.members = append(join.members, r)
 		if join != cur {
 			h.label("outside:join-superseded-generation")
+		}
+		if otherDialer(r, join) {
+			// the class of dialers.go: one address, two dialer names
+			what := "held-connection"
+			if join.state == attInflight {
+				what = "pending-dial"
+			}
+			h.label("dialer:other-name-meets-" + what)
+			if unknown {
+				h.label("dialer:unregistered-name-meets-" + what)
+			}
+			if r.ownCtx {
+				h.label("dialer:other-name-with-own-or-deadline-ctx-meets-" + what)
+			}
+			h.otherMet = true
 		}
 		if join.state == attInflight {
 			h.label("join-pending-dial")
@@ -910,6 +994,27 @@ func (h *harness) settle(s int) *verr {
 		}
 		return false
 	}
+	// 0. deadlines that expired (virtual time only moves in tick steps)
+	for _, r := range h.reqs {
+		if r.ctx == nil || r.cancelledAt >= 0 || r.ctx.Err() == nil {
+			continue
+		}
+		r.cancelledAt = s
+		t := r.att
+		switch {
+		case t != nil && t.state == attInflight && t.members[0] == r:
+			h.label("ctx:deadline-expired-on-originator-of-pending-dial")
+			if len(t.members) > 1 {
+				h.label("ctx:deadline-expired-on-originator-of-pending-dial-with-joiners")
+			}
+		case !r.observed:
+			h.label("ctx:deadline-expired-while-joiner-waits")
+		case r.holding:
+			h.label("ctx:deadline-expired-while-holding")
+		default:
+			h.label("ctx:deadline-expired-after-return")
+		}
+	}
 	// 1. dial results that were published (the dial function returned and the
 	// dial goroutine is not held at conn.dial.result).
 	for ai, t := range h.cur {
@@ -975,6 +1080,12 @@ func (h *harness) settle(s int) *verr {
 		switch {
 		case t == nil:
 			// refused outright because its context was already cancelled
+		case t.state == attInflight && !gaveUp && otherDialer(r, t) && r.conn == nil && r.err != nil:
+			// refused while the dial it met is still pending, for the name it gave
+			// (not stated either way): not a hand-out, it shares nothing
+			r.left = true
+			h.otherRefused = true
+			h.label("dialer:other-name-refused-while-dial-pending")
 		case t.state == attInflight:
 			if !gaveUp {
 				return newVerr("early-return", "after step %d: r%d returned %s while %s, which it joined, has not finished", s, r.id, h.resultOf(r), h.attName(t))
@@ -1019,6 +1130,14 @@ func (h *harness) settle(s int) *verr {
 			case gaveUp:
 				r.left = true
 				h.label("cancelled-requester-got-error-instead-of-shared-connection")
+			case r.conn == nil && r.err != nil && otherDialer(r, t):
+				// a request naming another dialer than the one this connection went
+				// through was answered with an error (not stated either way): it is
+				// not a hand-out, so it holds nothing - the connection is owed to the
+				// requesters that were handed it and to nobody else
+				r.left = true
+				h.otherRefused = true
+				h.label("dialer:other-name-refused-for-held-connection")
 			case r.conn == nil && r.err == nil:
 				return newVerr("nil-conn-nil-error", "after step %d: r%d shares %s, which produced %s, and got (nil connection, nil error)", s, r.id, h.attName(t), h.connName(t.conn))
 			case r.err != nil || r.conn != t.conn:
@@ -1027,6 +1146,10 @@ func (h *harness) settle(s int) *verr {
 				r.holding = true
 				if ownCancelled && !r.pre {
 					h.label("cancelled-joiner-still-got-the-shared-connection")
+				}
+				if otherDialer(r, t) {
+					h.otherShared = true
+					h.label("dialer:other-name-was-handed-the-connection")
 				}
 			}
 		}
@@ -1130,6 +1253,15 @@ func (h *harness) settle(s int) *verr {
 			}
 			h.lastEnd[t.ai] = fmt.Sprintf("the previous connection %s was closed in step %d when its last holder released it", h.connName(t.conn), s)
 			h.label("last-release-closes")
+			for _, m := range t.members {
+				if otherDialer(m, t) {
+					h.label("dialer:last-release-closes-connection-that-another-name-met")
+					if m.left {
+						h.label("dialer:last-release-closes-connection-after-a-refused-other-name")
+					}
+					break
+				}
+			}
 			switch {
 			case byScenario:
 				h.label("outside:last-release-of-scenario-closed-connection")
@@ -1250,7 +1382,7 @@ func runBubble(sc *Scenario) (stats, *verr) {
 	if sc.Addrs < 1 || sc.Addrs > 1024 || sc.Threads < 1 || sc.Threads > 4096 {
 		return stats{}, newVerr("harness-error", "scenario out of range: %d addresses, %d threads", sc.Addrs, sc.Threads)
 	}
-	h := &harness{sc: sc, addrIdx: map[string]int{}, armed: map[string]bool{}, xclosed: map[*grpc.ClientConn]bool{}, cur: make([]*attempt, sc.Addrs), lastEnd: make([]string, sc.Addrs)}
+	h := &harness{sc: sc, registered: registeredDialers(sc), addrIdx: map[string]int{}, armed: map[string]bool{}, xclosed: map[*grpc.ClientConn]bool{}, cur: make([]*attempt, sc.Addrs), lastEnd: make([]string, sc.Addrs)}
 	var distinct bool
 	if h.names, distinct = addrTable(sc.Names, sc.Addrs); !distinct {
 		return stats{}, newVerr("harness-error", "the address spellings of the scenario are not pairwise different after case folding: this part decides nothing about such spellings")
@@ -1264,7 +1396,10 @@ func runBubble(sc *Scenario) (stats, *verr) {
 	for _, l := range nameLabels(h.names, len(sc.Names) > 0) {
 		h.label(l)
 	}
-	m, err := connection.NewManagerCustom(map[string]connection.Dial{connection.DEFAULT: h.dial}, grpc.WithTransportCredentials(insecure.NewCredentials()))
+	if len(sc.Unreg) > 0 {
+		h.label("dialer:manager-built-without-some-names")
+	}
+	m, err := connection.NewManagerCustom(h.dialerMap(), grpc.WithTransportCredentials(insecure.NewCredentials()))
 	if err != nil {
 		return stats{}, newVerr("harness-error", "NewManagerCustom: %v", err)
 	}
@@ -1308,6 +1443,7 @@ func runBubble(sc *Scenario) (stats, *verr) {
 		h.label("failed-or-cancelled-dial")
 	}
 	h.st.nontrivial = h.overlap && h.failedDial
+	h.st.dialerClass = h.otherMet && (h.otherRefused || h.otherShared)
 	if h.st.nontrivial {
 		h.label("nontrivial")
 	}
